@@ -46,7 +46,7 @@ TOY_BASES = [
 BIGDEC = "9" * 4301
 BIGHEX = "0x" + "F" * 100000
 REPLACEMENTS = [",", ":", "(", ")", "[", "]", ".", "#", '"', "'", "+", "-", "--1", "x32", "x-1", "007", "00", "0x", "0b", "0b2", "0xG", "1e3", "\u0663", "\u00b2",
-                "\uff11", '"\u03c0"', '"a\u20acb"', '"\u65e5\u672c"', '"\U0001F600"', '"\u00fc\u00e9"', BIGDEC, "-" + BIGDEC, BIGHEX, "nolabel", "novar[1]", ".foo", ".data", ".text", ".word", "v: .word 1", "add x1, x2, x3", "4294967296", "-4294967297",
+                "\uff11", "\u017fub", "add\u0131", "ADD\u0130", "\u017fw", "\u0130NC", "\u017fto", "l\u0131", '"\u03c0"', '"a\u20acb"', '"\u65e5\u672c"', '"\U0001F600"', '"\u00fc\u00e9"', BIGDEC, "-" + BIGDEC, BIGHEX, "nolabel", "novar[1]", ".foo", ".data", ".text", ".word", "v: .word 1", "add x1, x2, x3", "4294967296", "-4294967297",
                 "x1", "sp", "add", "LDA", "end", "0", "-1", "1"]
 TOKEN = re.compile(r"\"[^\"\n]*\"|[A-Za-z_][A-Za-z_0-9]*|-?0x[0-9A-Fa-f]+|-?0b[01]+|-?[0-9]+|[^\sA-Za-z_0-9]")
 
